@@ -137,6 +137,7 @@ enum Expect {
 const SERVING_WORDS: &[&str] = &["", " servings", " cups worth", " big", " small ones", "-ish"];
 const TAG_POOL: &[&str] = &["vegan", "quick", "", "2022", "gluten free", "vegan", " spicy ", "a", "\u{a0}soup\u{a0}", "\u{3000}", "\u{2003}tea", " soup\u{a0}", "\u{2009}"];
 const BAD_TIMES: &[&str] = &["soon", "1hour30min", "5 parsecs", "-5", "inf", "nan", "1e20", "4294967296", "99999999h", "1h4294967295m", "71582789h", "1 h 4294967295 min", "h", "10 min 5", "1.5.2 h", "1h30", "٣ h", "1h -30min", "+5 min", "2 hours -30 min", "-1 min 2 min", "1 h +5 min", "1e2 min", "0x10 min"];
+const BAD_TIME_YAML: &[&str] = &["{prep: 10, cook: until golden}", "{prep: 10, cook: 4294967296}", "{prep: soon}", "{cook: [20]}", "{prep: 10, cook: 2 parsecs}", "[10, 20]", "{prep: -5, cook: 1}", "{prep: 1h, cook: {a: 1}}"];
 const BAD_SERVINGS: &[&str] = &["many", "2|2", "1|2|1", "x2", "-3", "4294967296", "|", "3 | many"];
 const LOCALES: &[&str] = &["en", "es_ES", "en_gb", "DE", "pt_BR"];
 const BAD_LOCALES: &[&str] = &["english", "e", "en-GB", "en_GBR", "e1", "en_", "_GB", "ça", "en_G1"];
@@ -193,8 +194,13 @@ fn render(c: &Case) -> (String, Option<String>, Expect, &'static [&'static str])
             let e = if c.conv % 4 == 3 { None } else { Some(exact) };
             (yaml_quote(&s), Some(s), Expect::Minutes(e), TIME_KEYS)
         }
+        // mappings and lists: YAML only
+        Spec::BadTime(i) if *i as usize % (BAD_TIMES.len() + BAD_TIME_YAML.len()) >= BAD_TIMES.len() => {
+            let y = BAD_TIME_YAML[*i as usize % (BAD_TIMES.len() + BAD_TIME_YAML.len()) - BAD_TIMES.len()];
+            (y.to_string(), None, Expect::Minutes(None), TIME_KEYS)
+        }
         Spec::BadTime(i) => {
-            let s = BAD_TIMES[*i as usize % BAD_TIMES.len()];
+            let s = BAD_TIMES[*i as usize % (BAD_TIMES.len() + BAD_TIME_YAML.len())];
             (yaml_quote(s), Some(s.to_string()), Expect::Minutes(None), TIME_KEYS)
         }
         Spec::ServingsInt(n) => {
@@ -311,6 +317,31 @@ pub fn oracle(c: &Case, st: &mut Stats) -> Verdict {
     let warnings = res.report().warnings().count();
     // `>>` entries always come with exactly one deprecation notice
     let unsupported = if old_style { warnings.saturating_sub(1) } else { warnings };
+    // the same entry after another one for which a metadata validator switches the standard checks off:
+    // what the validator says about one entry must not carry over to the next
+    {
+        let src2 = if old_style { format!(">> x-first: 1\n{src}") } else { src.replacen("---\n", "---\nx-first: 1\n", 1) };
+        let opts = cooklang::ParseOptions {
+            recipe_ref_check: None,
+            metadata_validator: Some(Box::new(|k: &serde_yaml::Value, _v: &serde_yaml::Value, o: &mut cooklang::analysis::CheckOptions| {
+                if k.as_str() == Some("x-first") {
+                    o.run_std_checks(false);
+                }
+                cooklang::analysis::CheckResult::Ok
+            })),
+        };
+        match guard(|| p.parse_with_options(&src2, opts)) {
+            Ok(r2) => {
+                let w2 = r2.report().warnings().count();
+                vensure!(
+                    w2 == warnings && r2.is_valid(),
+                    "c13.validator-carries-over",
+                    "parsed alone the entry gets {warnings} warning(s); after an entry whose standard checks a validator switched off it gets {w2}; source {src2:?}"
+                );
+            }
+            Err(e) => vbail!("c13.panic.parse", "parse_with_options panicked: {e}; source {src2:?}"),
+        }
+    }
     let r = res.output().unwrap();
     let Some(raw) = r.metadata.map.get(key) else {
         vbail!("c13.entry-missing", "metadata entry {key:?} missing from the map; source {src:?}");
